@@ -1,12 +1,15 @@
 //! Checks of the auth group: C31 C32 C33.
+mod common;
+mod model;
 mod props;
+mod sim;
 
 fn main() {
     let ctx = engine::Ctx::from_args();
     match ctx.id.as_str() {
-        // "C31" => props::c31::run(ctx),
-        // "C32" => props::c32::run(ctx),
-        // "C33" => props::c33::run(ctx),
+        "C31" => props::c31::run(ctx),
+        "C32" => props::c32::run(ctx),
+        "C33" => props::c33::run(ctx),
         other => engine::harness_error(&format!("property {other} is not served by verif-auth")),
     }
 }
